@@ -163,6 +163,26 @@ func c16(c *core.Check) {
 			}
 		})
 		r1.Cond(stackAfterBorder, "content stack after own background and border", p.Pos(outer.Pos()), "no background/border call is reachable after the content stack is entered", "own background or border can be painted after (over) the content")
+		// outlines belong to the box's opacity group: they are drawn before the group is composited
+		var composite ssa.Instruction
+		core.Instrs(outer, func(in ssa.Instruction) {
+			if mc, ok := in.(*ssa.MakeClosure); ok {
+				fnc := mc.Fn.(*ssa.Function)
+				core.Instrs(fnc, func(i2 ssa.Instruction) {
+					if callsNamed(i2, "DrawWithOpacity") {
+						composite = in
+					}
+				})
+			}
+			if callsNamed(in, "DrawWithOpacity") {
+				composite = in
+			}
+		})
+		if composite == nil {
+			r1.Fail("opacity group compositing", p.Pos(outer.Pos()), "no DrawWithOpacity call found")
+		} else {
+			r1.Cond(!core.Reaches(composite, isOutl) && !core.Reaches(composite, isStack), "outlines and content are drawn before the opacity group is composited", p.Pos(composite.Pos()), "no drawOutlines / content stack is reachable after DrawWithOpacity", "part of the box (outline or content) is drawn after its opacity group was composited: it escapes the box's opacity")
+		}
 		okOut, _ := core.MustPassThrough(outer, isStack, isOutl)
 		r1.Cond(okOut, "step 10 outlines after the content stack", p.Pos(outer.Pos()), "drawOutlines only after the content closure", "outlines can be painted before the content")
 	}
